@@ -7,9 +7,9 @@ set -u
 export GOFLAGS=-mod=mod GOPROXY=off GOSUMDB=off GOTOOLCHAIN=local
 P=$1; K=$2; shift 2
 CHECKS=${*:-$P}
-WT=/tmp/wt/$P
+WT=${WT_ROOT:-/tmp/wt}/$P
 M=$WT/MUT/$K
-OUT=/verif/seeded/$P-$K
+OUT=/verif/seeded/$P-${SEED_TAG:-}$K
 mkdir -p "$OUT"
 cd "$WT" || exit 2
 git checkout -q -- . ; rm -f zz_demo_test.go
@@ -38,10 +38,10 @@ HEAD_REPO=$(git -C /repo rev-parse HEAD)
 git checkout -q --detach "$HEAD_REPO" || { echo "cannot move worktree to /repo HEAD"; exit 2; }
 if ! git apply "$OUT/patch.diff"; then echo "patch does not apply to /repo HEAD"; APPLY=1; else APPLY=0; fi
 RES=""
-VOUT=/tmp/vout/$P-$K; mkdir -p "$VOUT"
+VOUT=/tmp/vout/$P-${SEED_TAG:-}$K; mkdir -p "$VOUT"
 if [ $APPLY = 0 ]; then
   for c in $CHECKS; do
-    (cd /verif && VERIF_REPO="$WT" VERIF_OUT="$VOUT" timeout 1800 ./check $c --tier quick >"$OUT/check.$c.log" 2>&1); rc=$?
+    (cd ${VERIF_SNAP:-/verif} && VERIF_REPO="$WT" VERIF_OUT="$VOUT" timeout 1800 ./check $c --tier quick >"$OUT/check.$c.log" 2>&1); rc=$?
     RES="$RES $c=$rc"
   done
 fi
@@ -51,7 +51,7 @@ echo "checks:$RES"
 python3 - "$P" "$K" "$BUILD" "$SUITE" "$MUT" "$CLEAN" "$RES" <<'PY'
 import json,sys,os
 p,k,build,suite,mut,clean,res=sys.argv[1:8]
-out='/verif/seeded/%s-%s'%(p,k)
+out='/verif/seeded/%s-%s%s'%(p,os.environ.get('SEED_TAG',''),k)
 meta={}
 mp=os.path.join(out,'meta.json')
 if os.path.exists(mp): meta=json.load(open(mp))
